@@ -1690,6 +1690,15 @@ class Walker:
                 return [("val", Const(getattr(_html, name.split(".")[-1])(*[a.value for a in args], **{k: v.value for k, v in kws.items()})), s)]
             except Exception:
                 pass
+        if name in ("re.sub", "re.split", "re.findall", "re.subn") and len(args) >= 2 and all(a.kind == "const" for a in args) \
+                and all(v.kind == "const" for v in kws.values()) and isinstance(args[0].value, (str, bytes)) \
+                and all(isinstance(a.value, (str, bytes, int)) for a in args):
+            import re as _re
+
+            try:
+                return [("val", Const(getattr(_re, name.split(".")[-1])(*[a.value for a in args], **{k: v.value for k, v in kws.items()})), s)]
+            except Exception:
+                pass
         if name in ("re.search", "re.match", "re.fullmatch") and len(args) == 2 and all(a.kind == "const" for a in args) and not kws \
                 and isinstance(args[0].value, (str, bytes)) and isinstance(args[1].value, type(args[0].value)):
             import re as _re
